@@ -29,6 +29,9 @@ class _Loop06(LoopCheck):
     props = {"C06"}
     flows = ("plain",)
 
+    def schedules(self, tier):
+        return super().schedules(tier) + ["fixed4_cap2"]
+
 
 class NullPop:
     """Population stand-in for the fixed-schedule harness: the ladder does not
